@@ -1,13 +1,40 @@
-(* Exact rational instance.  Transcendentals are unavailable: they return the flag value
-   [qerr] and runs that touch them are reported as "model undefined" by the harness
-   (models run at NumQ never call them). Results are normalised with Qred. *)
-From Coq Require Import QArith.
+(* Exact rational instance on [option bigQ] (Bignums rationals on primitive 63-bit integers,
+   normalising operations): [None] = undefined (division by zero, or a transcendental function,
+   which has no rational value). *)
+From Coq Require Import QArith List.
+From Bignums Require Import BigQ.
+Import ListNotations.
 From TT Require Import Num.
-Definition qerr : Q := (-987654321 # 1).
-Definition qadd a b := Qred (a + b).
-Definition qsub a b := Qred (a - b).
-Definition qmul a b := Qred (a * b).
-Definition qdiv a b := Qred (a / b).
-Definition NumQ : Num Q :=
-  mkNum Q 0 1 qadd qsub qmul qdiv Qopp (fun q => Qred q)
-        (fun _ => qerr) (fun _ => qerr) (fun _ => qerr).
+
+Definition qo := option bigQ.
+Definition q1 (f : bigQ -> bigQ) (a : qo) : qo := match a with Some x => Some (f x) | None => None end.
+Definition q2 (f : bigQ -> bigQ -> bigQ) (a b : qo) : qo :=
+  match a, b with Some x, Some y => Some (f x y) | _, _ => None end.
+Definition qdivo (a b : qo) : qo :=
+  match a, b with
+  | Some x, Some y => if BigQ.eq_bool y BigQ.zero then None else Some (BigQ.div_norm x y)
+  | _, _ => None
+  end.
+Definition qmaxo (a b : qo) : qo :=
+  match a, b with
+  | Some x, Some y => Some (match BigQ.compare x y with Gt => x | _ => y end)
+  | _, _ => None
+  end.
+Definition NumQ : Num qo :=
+  mkNum qo (Some BigQ.zero) (Some BigQ.one) (q2 BigQ.add_norm) (q2 BigQ.sub_norm) (q2 BigQ.mul_norm)
+        qdivo (q1 BigQ.opp)
+        (fun q => Some (BigQ.red (BigQ.of_Q q))) (fun _ => None) (fun _ => None) (fun _ => None) qmaxo.
+
+Definition sq (q : Q) : qo := Some (BigQ.red (BigQ.of_Q q)).
+
+(* harness output: [tag; numerator; denominator] as bigZ (printed natively; converting big
+   numbers to Z inside the VM is slow) *)
+From Bignums Require Import BigZ BigN.
+Definition show_q (a : qo) : list bigZ :=
+  match a with
+  | Some x => match BigQ.red x with
+              | BigQ.Qz z => [BigZ.one; z; BigZ.one]
+              | BigQ.Qq n d => [BigZ.one; n; BigZ.Pos d]
+              end
+  | None => [BigZ.zero; BigZ.zero; BigZ.one]
+  end.
